@@ -394,12 +394,13 @@ def run(fw):
         if fmt in ('json', 'yaml'):
             cases.append({'fmt': fmt, 'depth': 0, 'width': 0})
         if not quick:
-            cases.append({'fmt': fmt, 'depth': 2, 'width': 2})
-            cases.append({'fmt': fmt, 'depth': 1, 'width': 3})
-    fw.bounds.update({'tree_depth': 1 if quick else 2, 'children_per_node': '0..2' if quick else '0..3 (depth 1) / 0..2 (depth 2)', 'node_kinds': KINDS, 'scalars': 'symbolic i64 / f64 / bool / 1 printable byte',
+            # depth 2 with one child per inner container (two would be ~10^5 trees per format, hours of FP queries), and depth 1 wider
+            cases.append({'fmt': fmt, 'depth': 2, 'width': 2, 'inner': 1})
+            cases.append({'fmt': fmt, 'depth': 1, 'width': 3, 'inner': 2})
+    fw.bounds.update({'tree_depth': 1 if quick else 2, 'children_per_node': '0..2' if quick else 'root 0..3 with inner containers 0..2 (depth 1); root 0..2 with inner containers 0..1 (depth 2)', 'node_kinds': KINDS, 'scalars': 'symbolic i64 / f64 / bool / 1 printable byte',
                       'keys': NAMES, 'outside': 'the text serde_json / serde_yaml / toml print for a value tree and what a decoder reads from it; Env and Constraint values; key quoting'})
     fw.oracles.append('structural isomorphism Val <-> serde value with exact numeric equality (z3: fpToSBV round trip for integers routed through f64)')
-    fw.explore('value-mapping', harness, cases, fuel=50_000_000, max_paths=600000)
+    fw.explore('value-mapping', harness, cases, fuel=50_000_000, max_paths=6_000_000)
     for v in fw.violations:
         v['judge'] = make_judge(v)
     fw.assumptions += ['third-party entry points are abstract builtins (serde value constructors, maps); serialiser calls are opaque pieces carrying the value tree',
